@@ -240,7 +240,7 @@ def r1_arg_mutation(model, rep):
 
 def r2_restore(model, rep):
     rel = model.rel("system")
-    fn = model.own_method("System", "batt_life")
+    fn = model.norm_method("System", "batt_life")
     if fn is None:
         raise AnalysisError("System.batt_life not found")
     where = "%s:%d" % (rel, fn.lineno)
